@@ -33,13 +33,15 @@ ASSUMPTIONS = [
 
 VALUES = {
     "bits": [4, 2], "integer": [1, 2], "symmetric": ["FLIP"], "keep_negative": [False],
-    "alpha": [0.5, 2.0, "auto", "auto_po2", "ARRAY"], "use_stochastic_rounding": [True],
+    # 2**-10 and 0.3: numbers whose shortest decimal spelling is long (print / parse round trip of C10 rides on this table)
+    "alpha": [0.5, 2.0, "auto", "auto_po2", "ARRAY", 2.0 ** -10, 0.3], "use_stochastic_rounding": [True],
     "scale_axis": [0, [0, 1]], "qnoise_factor": [0.5], "var_name": ["v"], "use_ste": [False],
     "use_variables": [True], "elements_per_scale": [2], "min_po2_exponent": [-2, 0], "max_po2_exponent": [0],
     "post_training_scale": ["PTS", "PTS_COL"], "temperature": [2.0], "use_real_sigmoid": ["FLIP"], "threshold": [0.5, 0.0],
     "number_of_unrolls": [2], "use_01": [True], "use_sigmoid": [1], "negative_slope": [0.25],
     "relu_upper_bound": [1.5], "is_quantized_clip": [False], "u": [100.0], "use_real_tanh": [True],
-    "max_value": [2.0, 0.5], "quadratic_approximation": [True], "log2_rounding": ["floor"], "relu_shift": [2],
+    # 1.25 / 3.0: not powers of two (the exponent of the clipped value is rounded: 1.25 acts as 1, 3 as 4)
+    "max_value": [2.0, 0.5, 1.25, 3.0], "quadratic_approximation": [True], "log2_rounding": ["floor"], "relu_shift": [2],
 }
 # Second base points: the deviation-bounded lattice is enumerated around the default constructor AND around these
 # contexts, in which options that are invisible next to the defaults (a clip bound above the default range, scale
@@ -57,7 +59,9 @@ BASES = {
 CLASSES = ["quantized_bits", "quantized_linear", "quantized_relu", "quantized_tanh", "quantized_sigmoid",
            "quantized_po2", "quantized_relu_po2", "binary", "ternary", "stochastic_binary", "stochastic_ternary",
            "bernoulli", "quantized_ulaw", "quantized_hswish"]
-ROUTES = ["from_config", "get_quantizer(dict)", "keras_serialize"]
+# "from_config(same dict) twice": one configuration dictionary used for two rebuilds (a stored config, a layer config that
+# is deserialised again): the dictionary the caller handed over must not be modified and both rebuilds must succeed
+ROUTES = ["from_config", "get_quantizer(dict)", "keras_serialize", "from_config(same dict) twice"]
 
 
 def bound(tier):
@@ -247,6 +251,12 @@ def run_case(case):
     try:
       if route == "from_config":
         q1 = cls.from_config(q0.get_config())
+      elif route == "from_config(same dict) twice":
+        # (that from_config may normalise the dictionary it is given in place - quantized_bits converts a list-valued
+        # post_training_scale to an array - is not something the statement forbids; the second rebuild must still work)
+        cfg_shared = q0.get_config()
+        cls.from_config(cfg_shared)
+        q1 = cls.from_config(cfg_shared)
       elif route == "get_quantizer(dict)":
         q1 = Q.get_quantizer({"class_name": case["cls"], "config": q0.get_config()})
       else:
@@ -269,6 +279,10 @@ def run_case(case):
         # a rebuilt quantizer is a fresh object: re-create it per probe exactly like the original was
         if route == "from_config":
           qq = cls.from_config(q0.get_config())
+        elif route == "from_config(same dict) twice":
+          cfg_shared = q0.get_config()
+          cls.from_config(cfg_shared)
+          qq = cls.from_config(cfg_shared)
         elif route == "get_quantizer(dict)":
           qq = Q.get_quantizer({"class_name": case["cls"], "config": q0.get_config()})
         else:
@@ -297,6 +311,21 @@ def run_case(case):
           "digest": common.digest(*[b[0] for b in base if b is not None]), "violations": viol, "traces": evals,
           "info": {"valid_configurations": 1},
           "sample": {"cls": case["cls"], "options": case["opts"], "routes": ROUTES, "probes": len(ps)}}
+
+
+def _same_cfg(a, b):
+  if type(a) is not type(b):
+    return False
+  if isinstance(a, dict):
+    return a.keys() == b.keys() and all(_same_cfg(a[k], b[k]) for k in a)
+  if isinstance(a, (list, tuple)):
+    return len(a) == len(b) and all(_same_cfg(x, y) for x, y in zip(a, b))
+  if isinstance(a, np.ndarray):
+    return a.shape == b.shape and bool(np.array_equal(a, b))
+  try:
+    return bool(a == b) or (a != a and b != b)
+  except Exception:  # pylint: disable=broad-except
+    return False
 
 
 def _same_val(a, b):
